@@ -31,7 +31,7 @@ fn allowed(f: &Func, contracts: &serde_json::Value) -> Result<(), String> {
     }
     match f.trait_.as_deref() {
         None => Ok(()),
-        Some(t) if STD_OPS.contains(&t) || INHERENT_TRAITS.contains(&t) || t == "Clone" || t == "ComplexField" || t == "RealField" || t == "PartialEq" || t == "PartialOrd" => Ok(()),
+        Some(t) if STD_OPS.contains(&t) || INHERENT_TRAITS.contains(&t) || t == "Clone" || t == "ComplexField" || t == "RealField" || t == "PartialEq" || t == "PartialOrd" || t == "Display" => Ok(()),
         Some(t) => Err(format!("trait {t} not in this unit")),
     }
 }
@@ -436,6 +436,7 @@ pub fn emit_unit(db: &Db, contracts: &serde_json::Value, unit: &str) -> UnitOut 
         }
         let mut rw = Rw::new(ints);
         rw.float_unit = float_unit;
+        rw.display_unit = f.trait_.as_deref() == Some("Display");
         if let Some((o, i)) = db.nested.get(unit) {
             rw.nested = Some((o.clone(), unit.to_string(), i.clone()));
         }
